@@ -13,6 +13,7 @@ CONSTANTS
   MaxSpur = 3
   Endings = {"ctxdrop"}
   SeiSet = {"never"}
+  RecordSched = FALSE
   Dev = {}
 VIEW view
 CONSTRAINT Proviso
